@@ -168,10 +168,53 @@ fn handle_mt(p: &[&str]) -> String {
     out.join(",")
 }
 
+// evals <gid> <rule hex> <unit hex> <n> <tail hex> <hex names of memoized rules, separated by ,>:
+// parses unit*n + tail with the recording tracer and counts, for every listed rule and offset, the
+// entries that are not answered by "Cache hit"; answer: result kind, number of trace events, total
+// evaluations counted, number of (rule, offset) pairs evaluated more than once, the first ten of them
+fn handle_evals(p: &[&str]) -> String {
+    let rule = String::from_utf8(unhex(p[2])).unwrap();
+    let unit = String::from_utf8(unhex(p[3])).unwrap();
+    let n: usize = p[4].parse().unwrap();
+    let tail = String::from_utf8(unhex(p[5])).unwrap();
+    let names: std::collections::HashSet<&str> = p[6].split(',').collect();
+    let mut input = unit.repeat(n);
+    input.push_str(&tail);
+    hooks::TRACE.with(|t| t.borrow_mut().clear());
+    hooks::HLOG.with(|t| t.borrow_mut().clear());
+    let r = std::panic::catch_unwind(std::panic::AssertUnwindSafe(|| dispatch(p[1], &rule, &input, "rec")));
+    let kind = match r {
+        Ok(Some(s)) => s.split('\\t').next().unwrap_or("?").to_string(),
+        Ok(None) => return "NOSUCH".to_string(),
+        Err(_) => "PANIC".to_string(),
+    };
+    let mut counts: std::collections::BTreeMap<(String, usize), usize> = std::collections::BTreeMap::new();
+    let events = hooks::TRACE.with(|t| {
+        let t = t.borrow();
+        for i in 0..t.len() {
+            if let Some(rest) = t[i].strip_prefix("S:") {
+                let mut it = rest.split(':');
+                let nm = it.next().unwrap();
+                let off: usize = it.next().unwrap().parse().unwrap();
+                if names.contains(nm) && !(i + 1 < t.len() && t[i + 1] == "I:0") {
+                    *counts.entry((nm.to_string(), off)).or_insert(0) += 1;
+                }
+            }
+        }
+        t.len()
+    });
+    let total: usize = counts.values().sum();
+    let over: Vec<String> = counts.iter().filter(|(_, &c)| c > 1).map(|((nm, off), c)| format!("{}:{}:{}", nm, off, c)).collect();
+    format!("EVALS\\t{}\\t{}\\t{}\\t{}\\t{}", kind, events, total, over.len(), over[..over.len().min(10)].join(","))
+}
+
 fn handle(line: &str) -> String {
     let p: Vec<&str> = line.split('\\t').collect();
     if p.len() >= 5 && p[0] == "mt" {
         return handle_mt(&p);
+    }
+    if p.len() >= 7 && p[0] == "evals" {
+        return handle_evals(&p);
     }
     if p.len() < 4 || p[0] != "parse" {
         return "BADREQ".to_string();
@@ -216,7 +259,7 @@ def _shard_main(gs):
     arms = []
     for g in gs:
         if g.meta.get("via_macro"):
-            parts.append("mod %s { use super::hooks; peginator_macro::peginate!(r#####\"%s\"#####); }\n" % (g.gid, g.text))
+            parts.append("mod %s { use super::hooks; include!(\"%s.rs\"); }\n" % (g.gid, g.gid))
         else:
             if getattr(g, "assert_code", None):
                 parts.append("mod %s { use super::hooks; include!(\"%s.rs\"); include!(\"%s_assert.rs\"); }\n" % (g.gid, g.gid, g.gid))
@@ -233,6 +276,10 @@ def _shard_main(gs):
             arms.append('        ("%s", "%s", "rec") => Some(%s),' % (g.gid, r, call("hooks::RecTracer")))
             arms.append('        ("%s", "%s", "noop") => Some(%s),' % (g.gid, r, call("peginator::NoopTracer")))
             arms.append('        ("%s", "%s", "indent") => Some(%s),' % (g.gid, r, call("peginator::IndentedTracer")))
+            if not g.ctx:
+                # the public entry points themselves
+                arms.append('        ("%s", "%s", "pub") => Some(%s(<%s as peginator::PegParser>::parse(input))),' % (g.gid, r, f, ty))
+                arms.append('        ("%s", "%s", "pubtrace") => Some(%s(<%s as peginator::PegParser>::parse_with_trace(input))),' % (g.gid, r, f, ty))
     parts.append("fn dispatch(gid: &str, rule: &str, input: &str, mode: &str) -> Option<String> {\n    match (gid, rule, mode) {\n")
     parts.append("\n".join(arms))
     parts.append("\n        _ => None,\n    }\n}\n")
@@ -272,8 +319,8 @@ def build(grammars, key, nshards=16, profile="dev"):
                 if any(g.meta.get("via_macro") for g in gs):
                     f.write('peginator_macro = { path = "%s/macro" }\n' % vp.REPO)
             for g in gs:
-                with open(os.path.join(d, g.gid + ".rs"), "w", encoding="utf-8") as f:
-                    f.write(g.code)
+                with open(os.path.join(d, g.gid + ".rs"), "w", encoding="utf-8", newline="") as f:
+                    f.write(macro_call(g) if g.meta.get("via_macro") else g.code)
                 if getattr(g, "assert_code", None):
                     with open(os.path.join(d, g.gid + "_assert.rs"), "w", encoding="utf-8") as f:
                         f.write(g.assert_code)
@@ -310,6 +357,32 @@ def build(grammars, key, nshards=16, profile="dev"):
                 errs = [l for l in out.split("\n") if ("src/%s.rs" % g.gid) in l or ("src/%s_assert.rs" % g.gid) in l]
                 g.rustc_error = "\n".join(errs[:5])
     raise RuntimeError("shard build keeps failing")
+
+
+def rust_cooked(text):
+    """the text as an ordinary (escaped) Rust string literal"""
+    o = []
+    for ch in text:
+        if ch == "\\":
+            o.append("\\\\")
+        elif ch == '"':
+            o.append('\\"')
+        elif ch == "\n":
+            o.append("\\n")
+        elif ch == "\r":
+            o.append("\\r")
+        elif ch == "\t":
+            o.append("\\t")
+        else:
+            o.append(ch)
+    return '"' + "".join(o) + '"'
+
+
+def macro_call(g):
+    """the peginate! invocation for a grammar: raw or escaped literal (meta macro_lit)"""
+    if g.meta.get("macro_lit") == "cooked":
+        return "peginator_macro::peginate!(%s);\n" % rust_cooked(g.text)
+    return "peginator_macro::peginate!(r#####\"%s\"#####);\n" % g.text
 
 
 def pipe_resilient(exe, lines, per_line_timeout=20.0, env=None):
